@@ -52,6 +52,8 @@ def install_patches():
     def ins(self, out_state):
         if STATE["depth"] == 0:
             LOG.append(["commit", STATE["current"], _digest(out_state)])
+            if STATE.get("max_events") and len(LOG) > STATE["max_events"]:
+                raise RuntimeError("the run did not end within %d logged events" % STATE["max_events"])
         STATE["depth"] += 1
         try:
             return real_ins(self, out_state)
@@ -163,6 +165,7 @@ def main(argv):
     import random
     from jellyfysh.base.exceptions import EndOfRun
     install_patches()
+    STATE["max_events"] = job.get("max_events")
     result = {"mode": mode, "error": None}
     try:
         if mode in ("ref", "plain"):
